@@ -196,6 +196,14 @@ class _Run:
         self.decisions.append((text, v))
         return v
 
+    def _module_lookup(self, name):
+        from . import core
+        mi = core._MODULE_OF.get(id(self.i.fn))
+        if mi is None or core.ACTIVE_REPO is None:
+            return None
+        r = core.ACTIVE_REPO.resolve(mi, name)
+        return r[1] if r is not None else None
+
     def exec_fn(self, fn, env):
         try:
             self.block(fn.body, env)
@@ -303,6 +311,11 @@ class _Run:
                 return env[x.id]
             if x.id in self.i.consts:
                 return self.i.consts[x.id]
+            r = self._module_lookup(x.id)
+            if isinstance(r, ast.Constant):
+                return r.value
+            if isinstance(r, (ast.Tuple, ast.List)) and all(isinstance(z, ast.Constant) for z in r.elts):
+                return tuple(z.value for z in r.elts)
             if x.id in ("torch", "version"):
                 return Opaque(x.id)
             if x.id in ("qint8", "qint4", "qint2", "qfloat8", "qfloat8_e4m3fn", "qfloat8_e5m2"):
@@ -505,10 +518,21 @@ class _Run:
                 if isinstance(v, T):
                     return False
                 raise _Fork(U(x))
-            if n in self.i.helpers:
+            if n not in self.i.helpers and n not in env:
+                r = self._module_lookup(n)
+                if isinstance(r, ast.FunctionDef) and not r.decorator_list:
+                    self.i.helpers[n] = r
+            if n in self.i.helpers and not (n in env and callable(env[n])):
                 hfn = self.i.helpers[n]
                 ps = [a.arg for a in hfn.args.args]
-                henv = dict(zip(ps, args))
+                henv = {}
+                dflt = hfn.args.defaults
+                for pa, d in zip(ps[len(ps) - len(dflt):], dflt):
+                    try:
+                        henv[pa] = self.ev(d, {})
+                    except (Unknown, _Fork):
+                        henv[pa] = Opaque("default")
+                henv.update(zip(ps, args))
                 henv.update(kw)
                 sub = _Run(self.i, self.choices)
                 sub.pos, sub.decisions = self.pos, self.decisions
@@ -529,6 +553,8 @@ class _Run:
             if ft.startswith("torch.ops.quanto."):
                 if name in env:
                     return env[name](*args, **kw)
+                if name in self.i.env0 and callable(self.i.env0[name]):
+                    return self.i.env0[name](*args, **kw)
                 raise Unknown(ft)
             return self.torch_fn(name, args, kw, x)
         if ft.startswith("version.parse"):
